@@ -242,3 +242,21 @@ contract(CK + '_write_reaction_lines', P, label='surf-noTS,get_E_act(the-default
                    column_delimiter=Const('  '), sden_operation=Const('min'), T=T),
          ghost=dict(site=SITE), requires=['T > 0', 'site.site_density > 0'],
          ensures=[('one-line-per-reaction', 'len(result) == 1')], cross_check=False)
+
+# ---- enthalpy-type activation energies: the printed value is the clamped barrier of the species' enthalpies themselves -------
+for mech, rs in (('ads+des', [R_ADS, R_DES]), ('surf-noTS', [R_SURF])):
+    for act, scale in (('get_H_act', " * const.R('kcal/mol/K') * T"), ('get_HoRT_act', '')):
+        ens = []
+        for i in range(len(rs)):
+            r = 'reactions[%d]' % i
+            A = '(%s.sticking_coeff if %s.is_adsorption else %s.get_A(include_entropy=True, sden_operation=sden_operation, T=T))' % (r, r, r)
+            ens.append(('line-%d' % i,
+                        'result[%d] == spec.chemkin.rate_line(spec.chemkin.equation(%s), max(len(spec.chemkin.equation(q)) for q in reactions), '
+                        '%s, %s.beta, spec.chemkin.enthalpy_barrier_oRT(%s, T)%s, %s.is_adsorption, float_format, column_delimiter)'
+                        % (i, r, A, r, r, scale, r)))
+        contract(CK + '_write_reaction_lines', P, label='%s,%s,barrier-from-species-enthalpies' % (mech, act),
+                 args=dict(reactions=ListOf([f() for f in rs]), species_delimiter=Const('+'), reaction_delimiter=Const('='),
+                           include_TS=Const(False), stoich_format=Const('.0f'), act_method_name=Const(act),
+                           ads_act_method=Const(act), act_unit=Const('kcal/mol'), float_format=Const(' .3E'),
+                           column_delimiter=Const('  '), sden_operation=Const('min'), T=T),
+                 ghost=dict(site=SITE), requires=['T > 0', 'site.site_density > 0'], ensures=ens, cross_check=False)
